@@ -539,13 +539,15 @@ def check_accumulation(ctx, rule, fns, label=None, strict_unsigned=False):
                 while c.kind == "UnaryOperator" and c.op == "!":
                     c, t = c.children[0].strip(), not t
                 if c.kind == "BinaryOperator" and c.op in ("<", "<=", ">", ">=") and path(c.children[0]) == tp:
-                    k = c.children[1].strip().cv()
-                    if k is not None:
+                    kb = c.children[1].strip().cv()
+                    if kb is None:
+                        kb = flow.const_fold(f, c.children[1])      # e.g. (limit - 9) / 10 with limit a bound parameter
+                    if kb is not None:
                         op = c.op if t else {"<": ">=", "<=": ">", ">": "<=", ">=": "<"}[c.op]
                         if op == "<=":
-                            bound = k if bound is None else min(bound, k)
+                            bound = kb if bound is None else min(bound, kb)
                         elif op == "<":
-                            bound = k - 1 if bound is None else min(bound, k - 1)
+                            bound = kb - 1 if bound is None else min(bound, kb - 1)
             bits = tgt.strip().get("bits") or 32
             tmax = (1 << (bits - 1)) - 1
             if not signed and strict_unsigned:
